@@ -9,6 +9,7 @@ import (
 	"strings"
 
 	pipeline "github.com/buildkite/go-pipeline"
+	"github.com/buildkite/go-pipeline/signature"
 	"github.com/lestrrat-go/jwx/v2/jwk"
 
 	"verif/doc"
@@ -115,6 +116,22 @@ func mutateRune(r *rand.Rand, s string) string {
 	}
 	rs[i] = c
 	return string(rs)
+}
+
+// reducedFielder signs what the real step signs, minus one field.
+type reducedFielder struct {
+	inner *signature.CommandStepWithInvariants
+	omit  string
+}
+
+func (r *reducedFielder) SignedFields() (map[string]any, error) {
+	m, err := r.inner.SignedFields()
+	delete(m, r.omit)
+	return m, err
+}
+
+func (r *reducedFielder) ValuesForFields(f []string) (map[string]any, error) {
+	return r.inner.ValuesForFields(f)
 }
 
 // flipCase flips the case of one ASCII letter (chosen from the end backwards
@@ -517,6 +534,20 @@ func c01Mutants(r *rand.Rand, sc *signCase, sig *pipeline.Signature, kp, other, 
 		parts[2] = ""
 		s.Value = strings.Join(parts, ".")
 	})
+
+	// ---- a cryptographically valid signature over a field list that lacks a mandatory field
+	// (made by an alternative signer that never signed it): only the mandatory-field rule rejects it
+	for _, omit := range []string{"command", "env", "plugins", "matrix", "repository_url"} {
+		rf := &reducedFielder{inner: &signature.CommandStepWithInvariants{CommandStep: *sc.Step, RepositoryURL: sc.Repo}, omit: omit}
+		rsig, err := signature.Sign(bg, kp.Signer, rf, signature.WithEnv(sc.Penv))
+		if err != nil {
+			continue
+		}
+		m := base("sig:validly-signed-without-" + omit)
+		m.Sig = rsig
+		m.AlwaysReject = true
+		add(m)
+	}
 
 	// ---- key
 	key := func(kind string, v any) {
